@@ -137,6 +137,15 @@ class ContainerOneShot(OneShot):
         return 'ContainerOneShot(...)'
 
 
+class CollectionOneShot(SizedOneShot):
+    """A cursor-style Collection (__len__, __contains__, __iter__) that is its own one-shot iterator."""
+    def __contains__(self, y):
+        return False
+
+    def __repr__(self):
+        return 'CollectionOneShot(...)'
+
+
 @T.runtime_checkable
 class Proto(T.Protocol):
     def meth(self) -> int: ...
